@@ -32,6 +32,18 @@ Definition VErr (code : Z) : V := VL [VZ (-2); VZ code].
 Definition VOpt {A} (f : A -> V) (o : option A) : V :=
   match o with Some a => VL [VZ 1; f a] | None => VNone end.
 
+(* run-length encoding, so that long frames stay short in the case files *)
+Fixpoint rle (l : list Z) : list (Z * Z) :=
+  match l with
+  | [] => []
+  | x :: tl =>
+      match rle tl with
+      | (y, n) :: r => if x =? y then (y, n + 1) :: r else (x, 1) :: (y, n) :: r
+      | [] => [(x, 1)]
+      end
+  end.
+Definition VR (l : list Z) : V := VL (map (fun p => VL [VZ (fst p); VZ (snd p)]) (rle l)).
+
 (* indices of the cases on which model and implementation disagree *)
 Fixpoint mismatches_from (i : nat) (l : list (V * V)) : list nat :=
   match l with
